@@ -30,7 +30,7 @@ theorem finishSave_inv (h : InvQ c s) (sn : Snap) (ht : hasTmp s.d sn)
     apply_keeper _ (.flushTmp sn.tip) sn rfl (apply_keeper _ (.chunkTmp sn.tip) sn rfl (apply_keeper s.d .nop sn rfl ht))
   exact h3.emit_renameTmpDb_finish sn .fileRenamed ht3 hsn
 
-theorem startSave_inv (h : InvQ c s) (hurry : Bool) (hP : c.P s.n.tip s.n.utxo)
+theorem startSave_inv (h : InvQ c s) (hurry : Bool) (hP : c.P ⟨s.n.tip, s.n.lastHeight, s.n.utxo⟩)
     (htip : s.n.tip = 0 ∨ s.n.tip ∈ ids s.d) : InvQ c (startSave s hurry) := by
   unfold startSave
   split
@@ -123,7 +123,8 @@ theorem undoLastBlock_inv (h : InvQ c s) : InvQ c (undoLastBlock s) := by
       split
       · exact h1.fail _
       · rename_i uf _
-        have h2 := h1.setUtxoDirty hs1 (undoU (abortSave (s.emit .nop .undoBeforeUtxo)).n.utxo b uf.coins)
+        have h2 := (h1.setForeign ((abortSave (s.emit .nop .undoBeforeUtxo)).foreign || uf.blk != (abortSave (s.emit .nop .undoBeforeUtxo)).n.tip)).setUtxoDirty hs1
+          (undoU (abortSave (s.emit .nop .undoBeforeUtxo)).n.utxo b uf.coins)
           ((abortSave (s.emit .nop .undoBeforeUtxo)).n.lastHeight - 1)
         have h3 := h2.emit_nop .undoAfterUtxo
         have hrecs : (abortSave (s.emit .nop .undoBeforeUtxo)).n.recs = s.n.recs := by
@@ -246,7 +247,7 @@ theorem find_append_one (l : List BRec) (nr : BRec) (id : BlockId) :
   simp only [List.find?_cons, List.find?_nil]
   split <;> simp_all
 
-variable {P : BlockId → List Coin → Prop} {base : Disk} {X : BlockId → Prop} {T : List BlockId} {Q : List Block}
+variable {P : Snap → Prop} {base : Disk} {X : BlockId → Prop} {T : List BlockId} {Q : List Block}
 
 /-- BlockAdd of a block whose parent has a record: afterwards the block itself has one (ghost id), every tree node
     has one, and a new block sits at the end of the write queue -/
